@@ -810,7 +810,7 @@ def r43(chk, m, rule_id='R4.3'):
     for local in (True, False):
         h = NH(m, Context)
         h.keep = lambda ev: False
-        it = A.Interp(model=m, scope=fn, hooks=h, max_iter=3, exc_edges=False, inline=3, heap=True, precise_exc=True)
+        it = A.Interp(model=m, scope=fn, hooks=h, max_iter=3, exc_edges=False, inline=6, heap=True, precise_exc=True)
         env = ctx_heap(m, 3)
         old = A.Obj('old-class', {'args': 'OLD-ARGS', 'definition': 'OLD-BODY', '__bases': ('Definition', 'Macro'), '__name__': 'foo'})
         for i, f in enumerate(env['__frames']):
